@@ -9,6 +9,7 @@
     no unrolling of FieldsInSetCanMerge fails is accepted by the default plan.
 -/
 import GqlVerif.Lemmas.MergeFinal
+import GqlVerif.Lemmas.FuelAdequate
 import GqlVerif.Thm.C05b
 namespace Gql.C05
 open Gql.Spec
@@ -129,6 +130,26 @@ theorem valid_accepted (s : Schema) (d : Document) (hs : SchemaOk s) (hd : DocOk
     · subst h2; exact hv.merge (C05.violatedEx_of_violated s d hr')
     · exact hv.others r' h2 hr'
 
+/-- on a document without fragment cycles the fuel-free reading of 5.3.2 is the executable one -/
+theorem valid_iff (s : Schema) (d : Document) (hs : SchemaOk s) : Valid s d ↔ ∀ r, ¬ Violates r s d := by
+  constructor
+  · intro hv r
+    by_cases h1 : r = .overlappingFieldsCanBeMerged
+    · subst h1
+      exact fun hm => hv.merge (mergeViolatedEx_of_violated s d hm)
+    · exact hv.others r h1
+  · intro h
+    refine ⟨fun r _ => h r, fun hex => ?_⟩
+    exact h .overlappingFieldsCanBeMerged ((violatedEx_iff_of_acyclic s d hs.queryRoot (h .noFragmentsCycle)).1 hex)
+
+/-- **C01, in its plain form.**  On a well-formed schema, a document that violates none of the 24
+    conditions - each a predicate of `Spec/`, field merging being the executable FieldsInSetCanMerge
+    with its own fuel (adequate without fragment cycles: `violatedEx_iff_of_acyclic`) - is accepted
+    by the default plan.  No hypothesis about any rule. -/
+theorem valid_accepted_plain (s : Schema) (d : Document) (hs : SchemaOk s) (hd : DocOk d) (hi : NoIntrospectionConditions s d)
+    (hv : ∀ r, ¬ Violates r s d) : validate s d Gen.defaultPlan = some [] :=
+  valid_accepted s d hs hd hi ((valid_iff s d hs).2 hv)
+
 /-- the same, read as: every error of the default plan points at a violated condition -/
 theorem rejected_only_if_invalid (s : Schema) (d : Document) (hs : SchemaOk s) (hd : DocOk d) (hi : NoIntrospectionConditions s d)
     (errs : List Err) (h : validate s d Gen.defaultPlan = some errs) (hne : errs ≠ []) : ¬ Valid s d := by
@@ -219,7 +240,7 @@ theorem srs_leaves (s : Schema) (d : Document) (sf : Nat) (a b : AstAndDef) (ha 
   | n + 1 => by simp [srs_succ, ht, subFields, specFields, specFieldsWith, ha, hb, allPairs]
 
 theorem tiny_merge : ¬ MergeViolatedEx tinySchema tinyDoc := by
-  rintro ⟨sf, nf, sel, env, hm, hf⟩
+  rintro ⟨sf, nf, _, _, sel, env, hm, hf⟩
   have h := List.mem_map_of_mem (f := Prod.fst) hm
   rw [walkOf_events _ _ (by decide)] at h
   simp [traverseDocument, traverseDefinitions, traverseDefinition, traverseSelectionSet, traverseSelections,
